@@ -9,7 +9,10 @@ above the root).
 (R) every TLC transition is replayed on a real diskfs in a scratch directory
     (root and child view) and on memfs under the same rule;
 (T) random histories on disk / disk view / mem are validated by Trace_MemFS.tla
-    (its Allowed operator has the clean-failure branch for events marked pre)."""
+    (its Allowed operator has the clean-failure branch for events marked pre, and the
+    named corner U7: a disk filespace that removed its own root directory -- logged
+    with every event -- refuses calls cleanly until a call re-creates it; the root may
+    disappear only by a successful Remove / RemoveAll of the root itself)."""
 import os, json
 import vlib
 
@@ -51,10 +54,23 @@ def run(ctx):
                 '--tmp', dtmp, '--diskpre', '--seed', str(ctx.seed), '--names', '6' if q else '10', '--depth', '4' if q else '5'])
     v = vlib.validate_trace(ctx, 'fs', 'Trace_MemFS', 'Trace_MemFS.cfg', tf, what='random disk/mem histories under PreC')
     ctx.cov['evaluations'] += g['events']
+    gone = 0
     with open(tf) as f:
         for i, line in enumerate(f):
             if 30 <= i < 32:
                 ctx.sample(json.loads(line))
+            if '"rootgone":true' in line:
+                gone += 1
+    ctx.cov['traces'].append(dict(what='events recorded while the backend\'s own root directory was gone (corner U7)', events=gone))
+    if not v['rejected']:
+        def gone_unjustified(lines):
+            for i, l in enumerate(lines):
+                if i > 5 and '"rootgone":false' in l and '"tree":[]' in l and '"name":"is' in l:
+                    lines = list(lines)
+                    lines[i] = l.replace('"rootgone":false', '"rootgone":true')
+                    return lines, 'a query is logged as having removed the root directory (line %d)' % (i + 1)
+            return lines, 'none'
+        vlib.selftest_trace_rejects(ctx, 'fs', 'Trace_MemFS', 'Trace_MemFS.cfg', tf, gone_unjustified)
     if not v['rejected'] and not q:
         def corrupt(lines):
             for i, l in enumerate(lines):
